@@ -230,6 +230,20 @@ class WorldGen(object):
         rdefs = dict((self.names[i], defs[i]) for i in range(k.ndefs) if homes[i] == "root")
         if rdefs:
             root["definitions"] = rdefs
+        if self.root_url.startswith("http") and rng.random() < 0.15:
+            # a reference whose JSON pointer passes THROUGH a subschema that declares an id of its own, to a referent
+            # holding a relative reference: the library resolves that relative reference against the document's base
+            # (the id on the way is not entered - a known limitation) - every time, not only the second time
+            rel = [u for u in self.doc_urls if u.startswith("http")]
+            if rel:
+                tgt = rng.choice(rel)
+                sp = [x for x in spellings(self.root_url, tgt, "/definitions/" + ptr_token(self.names[homes.index(tgt)]
+                                                                                          if tgt in homes else "n0"))
+                      if not x.startswith(("http", "/", "#"))]
+                if sp:
+                    root.setdefault("definitions", {})["nest"] = {
+                        self.idkw: "folder/", "definitions": {"inner": {"$ref": rng.choice(sp)}}}
+                    root.setdefault("properties", {})["zz"] = {"$ref": "#/definitions/nest/definitions/inner"}
         docs = {}
         for u in self.doc_urls:
             doc = {}
